@@ -61,7 +61,7 @@ impl<'a> io::BufRead for Box<Message<'a>> {
     fn consume(&mut self, amt: usize) { unimplemented!() }
 }
 //@trusted T4 reading the body does not change what follows it: trailing() of the source is the same before and after fill_buffer_bytes (the packet stream is fixed input)
-//@trusted T4 util::fill_buffer_bytes (contract PROVED in U23/U70): Ok(n) appends the next n source bytes to the buffer, stops when the buffer holds `len` bytes or the source is exhausted, for every short-read schedule
+//@trusted T4 util::fill_buffer_bytes (contract PROVED in U23/U70): Ok(n) appends the next n source bytes to the buffer, stops when the buffer holds `len` bytes or the source is exhausted, for every short-read schedule (for sources honouring std's error contract, std_err(); proved under that precondition)
 #[verifier::external_body]
 pub fn fill_buffer_bytes<'a>(source: &mut Box<Message<'a>>, buffer: &mut BytesMut, len: usize) -> (r: io::Result<usize>)
     ensures match r {
